@@ -3,7 +3,7 @@ use super::c06;
 use crate::ctx::{Case, Ctx};
 use crate::json::J;
 use crate::prng::{fnv, fnv_add, Rng};
-use crate::refs::text::{escape, unescape};
+use crate::refs::text::{escape, unescape, write_text_image};
 use mila::{Endian, TextArchive, TextArchiveFormat};
 
 #[derive(Clone, Debug)]
@@ -358,6 +358,79 @@ pub fn run(cx: &mut Ctx) {
             });
         }
     }
+    // archives parsed from files the library did not write: one label per message (conforming), a
+    // second label on some message, a message without any label. Whatever the parse yields, a parsed
+    // archive is clean and its lookups are the escaped stored messages.
+    for unicode in [false, true] {
+        for be in [false, true] {
+            cx.case("parsed_foreign_images", |c| {
+                if cfg!(miri) && unicode {
+                    return;
+                }
+                c.sit("parsed_reference_built_image");
+                let fmt = if unicode { TextArchiveFormat::Unicode } else { TextArchiveFormat::ShiftJIS };
+                let en = if be { Endian::Big } else { Endian::Little };
+                let msgs = ["plain", "two\nlines", "literal \\n inside", "", "tail"];
+                for variant in 0..5 {
+                    let entries: Vec<(Vec<String>, String)> = msgs
+                        .iter()
+                        .enumerate()
+                        .map(|(i, m)| {
+                            let mut labels = vec![format!("MID_{}", i)];
+                            match variant {
+                                1 if i == 1 => labels.push("MID_ALIAS".into()),
+                                2 if i == 4 => labels.clear(),
+                                3 if i == 0 => labels.clear(),
+                                4 => {
+                                    if i == 2 {
+                                        labels.push("MID_ALIAS".into())
+                                    } else if i == 3 {
+                                        labels.clear()
+                                    }
+                                }
+                                _ => {}
+                            }
+                            (labels, m.to_string())
+                        })
+                        .collect();
+                    let img = write_text_image(be, unicode, "title", &entries);
+                    let img_t = crate::monitor::tight(&img);
+                    let what = ["one label per message", "a second label on one message", "last message without a label", "first message without a label", "alias label and an unlabelled message"][variant];
+                    match c.lib("TextArchive::from_bytes (reference-built image)", || TextArchive::from_bytes(&img_t, fmt, en)) {
+                        Some(Ok(t)) => {
+                            if t.is_dirty() {
+                                c.fail("dirty", "parsed_dirty", format!("an archive parsed from a file with {} reports is_dirty() == true (format {:?}, {:?})", what, unicode, be));
+                                return;
+                            }
+                            for (k, stored) in t.get_entries() {
+                                let got = t.get_message(k);
+                                if got.as_deref() != Some(escape(stored).as_str()) {
+                                    c.fail("lookup", "lookup_escape", format!("parsed from a file with {}: get_message({:?}) = {:?}, stored {:?}", what, k, got, stored));
+                                    return;
+                                }
+                            }
+                            if variant == 0 {
+                                let exp: Vec<(String, String)> = entries.iter().map(|(l, m)| (l[0].clone(), m.clone())).collect();
+                                let got: Vec<(String, String)> = t.get_entries().iter().map(|(k, v)| (k.clone(), v.clone())).collect();
+                                if got != exp {
+                                    c.fail("parse", "foreign_image_content", format!("conforming reference-built file parses to {:?}, expected {:?}", got, exp));
+                                }
+                            }
+                        }
+                        Some(Err(e)) => {
+                            if variant == 0 {
+                                c.fail("parse", "foreign_image_refused", format!("conforming reference-built file refused: {}", e));
+                            } else {
+                                c.outcome("unusual_file_refused");
+                            }
+                        }
+                        None => return,
+                    }
+                }
+                c.eval(5);
+            });
+        }
+    }
     // random
     let n = cx.a.n(60_000, 1_500_000);
     for _ in 0..n {
@@ -378,11 +451,26 @@ pub fn run(cx: &mut Ctx) {
                     }
                 }
             }
+            // keys are arbitrary strings while the archive is in memory: look-alike characters that only
+            // a file round trip through Shift-JIS would fold stay distinct keys (no file I/O in these histories)
+            let lookalikes = !many && rng.chance(1, 8);
+            if lookalikes {
+                c.sit("keys_with_lookalike_characters");
+                for k in ["k\u{2212}", "k\u{ff0d}", "k\u{203e}", "k~", "k\u{a5}", "k\\", "\u{2212}", "-", "caf\u{e9}", "cafe\u{301}"] {
+                    if rng.chance(2, 3) {
+                        keys.push(k.to_string());
+                    }
+                }
+            }
             let nk = keys.len();
-            let alphabet = ['\\', 'n', '\n', '\r', 'a', 'あ', '\u{a5}', 'ｱ'];
             let len = if cfg!(miri) { rng.range(5, 20) } else if many { rng.range(300, 700) } else { rng.range(20, 300) };
             let unicode = cfg!(miri) || rng.chance(2, 3);
             let be = rng.bool();
+            let mut alphabet = vec!['\\', 'n', '\n', '\r', 'a', 'あ', '\u{a5}', 'ｱ'];
+            if unicode && !cfg!(miri) && rng.chance(1, 3) {
+                // other line-breaking characters are ordinary text: only LF is escaped
+                alphabet.extend(['\u{2028}', '\u{2029}', '\u{85}', '\u{b}', '\u{c}']);
+            }
             let mut h = Vec::new();
             for _ in 0..len {
                 let k = rng.pick(&keys).clone();
@@ -408,7 +496,9 @@ pub fn run(cx: &mut Ctx) {
             }
             c.nontrivial(fp);
             c.eval(len as u64);
-            if rng.bool() {
+            if lookalikes {
+                run_history_fmt(c, &h, &keys, false, &[], unicode, be);
+            } else if rng.bool() {
                 let start: Vec<(String, String)> = keys.iter().take(rng.range(1, nk)).map(|k| (k.clone(), (0..rng.range(0, 5)).map(|_| *rng.pick(&alphabet)).collect())).collect();
                 // start values must survive the file format of the start state
                 // (under Miri a parsed start state always goes through the legacy format, see run_history_fmt)
